@@ -3290,6 +3290,14 @@ def _check_entry_for_changes(
         if not stat.S_ISREG(st.st_mode) and not stat.S_ISLNK(st.st_mode):
             return None
 
+        # A path can change type (file <-> symlink) while its content still
+        # hashes to the same blob; neither the stat shortcut nor the blob
+        # comparison below notices that.
+        if stat.S_IFMT(cleanup_mode(st.st_mode)) != stat.S_IFMT(
+            cleanup_mode(entry.mode)
+        ):
+            return tree_path
+
         # Optimization: If stat matches index entry (mtime and size unchanged),
         # we can skip reading and filtering the file entirely. This is a significant
         # performance improvement for repositories with many unchanged files.
